@@ -34,6 +34,7 @@ type Profile struct {
 	BadMagic    int // per-mille probability, among foreign images, of a non-canonical magic/version
 	TornHeader  bool // histories include "reopened after an add that was interrupted before its header write"
 	Faults      bool // histories include operations during which the backing store fails a call, the handle being used on afterwards
+	Readd       bool // histories include "GetData, delete, add the kept bytes" (C14)
 	Truncs      bool // histories include "the file is cut short inside an object, then opened again"
 }
 
@@ -628,6 +629,14 @@ func (g *Gen) nextOp(f *sif.FileImage) *Op {
 		default:
 			op.Sel = pick(r, []Sel{{Kind: "id", N: 0}, {Kind: "grp", N: 0}, {Kind: "grp", N: 77}, {Kind: "lid", N: 0}, {Kind: "lgid", N: 0}})
 			g.count("reject:del-" + op.Sel.String())
+		}
+		if g.p.Readd && op.Sel.Kind == "id" && len(in.ids) > 0 && r.Chance(1, 6) {
+			// replace an object by itself: its bytes are fetched with GetData and kept, the object
+			// is deleted (zeroing / compacting), and the kept bytes are added as a new object
+			op.Kind, op.ID = "readd", pick(r, in.ids)
+			op.Sel = Sel{Kind: "id", N: int64(op.ID)}
+			g.count(fmt.Sprintf("op:readd z%d c%d", b2i(op.Zero), b2i(op.Compact)))
+			return op
 		}
 		g.count(fmt.Sprintf("op:del z%d c%d", b2i(op.Zero), b2i(op.Compact)))
 		g.afterCompact = op.Compact && !op.Zero
